@@ -266,3 +266,8 @@ def run(db, chk):
             ok = ini is not None and ini.get("init") is not None and strip(ini["init"]).get("cv") is False
             chk.ob("C16-T2", "snapshot constructor sets m_writeable = false [%s]" % uname, ok,
                    where=fn.ploc, function=fn.bn, construct="ctor(m_writeable)", extra={"unit": uname})
+    chk.absorb(db, "C19", {"C19-L2"}, "C16-T4", "basins / pits of a (snapshot) graph are recomputed from the tables it "
+               "holds at the time of the query (shared with C19-L2): the snapshot operator overwrites those tables "
+               "without going through the facade", min_instances=3)
+    chk.absorb(db, "C04", {"C04-S1"}, "C16-T5", "the single-direction state a snapshot copies is complete after the "
+               "router: count and weight one are rewritten at every update (shared with C04-S1)", min_instances=100)
